@@ -81,7 +81,7 @@ def run(ck):
   k = next(i for i, e in enumerate(t0["events"]) if e["err"] == "nan")
   t0["events"][k]["pc"] = True
   t1 = copy.deepcopy(traces[0]); t1["events"][-1]["finp"] = False
-  sub = core.Check(ck.pid, ck.level, ck.tier, ck.seed); sub.work = ck.work
+  sub = core.Check(ck.pid, ck.level, ck.tier, ck.seed, parent=ck)
   vs = sub.validate("DSControl_Trace", "DSControl_Trace",
                     [{"cfg": t["cfg"], "events": t["events"]} for t in (t0, t1)])
   ck.selftest("V: root replaced although the reported error is NaN is rejected", not vs[0]["accepted"])
